@@ -18,7 +18,7 @@ RULE = ("binnify: every chromosome-size table with 1..3 chromosomes of length 1.
         "create_cooler/Cooler.binsize/info/chromsizes, parse_bins and `cooler makebins`. Non-trivial: more than one "
         "bin in the table / width smaller than some chromosome. Distinct by construction.")
 BOUNDS = {"quick": "binnify L=8 (584 size tables x 9 widths) + large lengths; BT(3,5,W): 3369 tables; end-to-end on BTrep(3,5)",
-          "thorough": "binnify L=12 (1884 size tables x 13 widths); BT(3,6,W): 15033 tables; end-to-end on BTrep(3,6) + all of BT(3,4,W)"}
+          "thorough": "binnify L=12 (1884 size tables x 13 widths); BT(3,7,W): 66066 tables; end-to-end on BTrep(3,6) + all of BT(3,4,W)"}
 ASSUMPTIONS = ["bin tables given to the inference are valid: contiguous from 0 within each chromosome, grouped by chromosome",
                "only the 'only if' direction is demanded of a reported bin size, as the property states"]
 EXPECT_CLASSES = {"*": ["binsize:reported", "binsize:none", "tclass:uni>", "tclass:uni<", "tclass:var", "tclass:one"]}
@@ -34,9 +34,9 @@ def units(tier):
         for lo in range(0, len(lens), 64):
             yield {"leg": "binnify", "L": L, "nchrom": nchrom, "lo": lo, "hi": min(len(lens), lo + 64)}
     yield {"leg": "binnify-large"}
-    tabs = alpha.bin_tables(3, 6 if th else 5)
+    tabs = alpha.bin_tables(3, 7 if th else 5)
     for lo in range(0, len(tabs), 128):
-        yield {"leg": "infer", "B": 6 if th else 5, "lo": lo, "hi": min(len(tabs), lo + 128)}
+        yield {"leg": "infer", "B": 7 if th else 5, "lo": lo, "hi": min(len(tabs), lo + 128)}
     rep = alpha.bt_rep(3, 6 if th else 5)
     for lo in range(0, len(rep), 8):
         yield {"leg": "e2e", "B": 6 if th else 5, "lo": lo, "hi": min(len(rep), lo + 8), "src": "rep"}
